@@ -133,7 +133,7 @@ def u_tau2_identity(ip):
 
 
 @unit("C13.finite_discrete", "C13", [f"{MG}::finite_discrete_gibbs_kernel", f"{MG}::finite_discrete_gibbs_kernel.<locals>.transition_fn", f"{M}::Model.update", f"{M}::Model._recursive_inputs"],
-      assumptions=["A-RNG: categorical(key, logits) draws index j with probability proportional to exp(logits[j]) (trusted)", "A-VMAP", "graph: k ~ Prior(); w = f(k) cached; y ~ Lik(w, m) observed; m ~ Pm()"])
+      assumptions=["A-RNG: categorical(key, logits) draws index j with probability proportional to exp(logits[j]) (trusted)", "A-VMAP", "graph: k ~ Prior(); w = f(k) cached; y ~ Lik(w, m) observed; m ~ Pm(); beta ~ Pbeta(k); free ~ Dfree(k); res = f_res(k) ~ Dres() (k enters only through the evaluation point)"])
 def u_finite_discrete(ip):
     """logits[j] is the model's joint log-density with the variable set to outcomes[j] and every other value taken from the model
     state handed to the transition (all ancestors of the log-probability re-evaluated), the draw is outcomes[categorical(key, logits)]
@@ -147,7 +147,8 @@ def u_finite_discrete(ip):
     y = g.var("y", dist=g.dist("Lik", w, m), observed=True)
     beta = g.var("beta", dist=g.dist("Pbeta", k), parameter=True)  # the discrete variable parameterises the PRIOR of another parameter
     free = g.var("free", dist=g.dist("Dfree", k))  # ... and the distribution of a variable that is neither observed nor a parameter
-    model = g.build(y, beta, free)
+    res = g.var("res", value=g.calc("f_res", k), dist=g.dist("Dres"), observed=True)  # ... and enters a density only through its point of evaluation (a residual)
+    model = g.build(y, beta, free, res)
     outcomes = [z3.Const(f"outcome{j}", U) for j in range(3)]
     ip.models["jax.numpy.asarray"] = lambda ip_, x, *a, **kw: list(x) if isinstance(x, (list, tuple)) else x
     ip.models["jax.vmap"] = lambda ip_, f, **kw: PyFn(lambda ip2, xs: [ip2.call(f, [x], {}) for x in xs], "vmapped")
@@ -168,7 +169,8 @@ def u_finite_discrete(ip):
     y2 = g2.var("y", value=z3.Const("state_y", U), dist=g2.dist("Lik", w2, m2), observed=True)
     beta2 = g2.var("beta", value=z3.Const("state_beta", U), dist=g2.dist("Pbeta", k2), parameter=True)
     free2 = g2.var("free", value=z3.Const("state_free", U), dist=g2.dist("Dfree", k2))
-    st = ip.getattr(g2.build(y2, beta2, free2), "state")
+    res2 = g2.var("res", value=g2.calc("f_res", k2), dist=g2.dist("Dres"), observed=True)
+    st = ip.getattr(g2.build(y2, beta2, free2, res2), "state")
     key = z3.Const("key", U)
     out = ip.call(kernel.f["_transition_fn"], [key, st], {})
     LPf = lambda fam, *a: TOTAL(ip.uf(f"logp_{fam}", *[ip.to_U(x) for x in a]))  # noqa: E731
@@ -177,7 +179,7 @@ def u_finite_discrete(ip):
     if isinstance(lg, list) and len(lg) == 3:
         for j, o in enumerate(outcomes):
             want = (LPf("Prior", o) + LPf("Pm", z3.Const("state_m", U)) + LPf("Lik", ip.uf("f_w", o), z3.Const("state_m", U), z3.Const("state_y", U))
-                    + LPf("Pbeta", o, z3.Const("state_beta", U)) + LPf("Dfree", o, z3.Const("state_free", U)))
+                    + LPf("Pbeta", o, z3.Const("state_beta", U)) + LPf("Dfree", o, z3.Const("state_free", U)) + LPf("Dres", ip.uf("f_res", o)))
             c.oblige(f"logit_{j}_is_joint_density_at_outcome", to_sort(lg[j], Real) == want)
     c.oblige("draw_is_selected_outcome", isinstance(out, dict) and list(out) == ["k"] and ip.to_U(out["k"]).eq(outcomes[1]))
     c.oblige("categorical_gets_the_transition_key", got.get("key") is key)
